@@ -187,12 +187,25 @@ func propC12(o *propOpts) *propResult {
 		each(string(b))
 		return res
 	}
-	// inputs on which a channel disagreed, alone and embedded in separator contexts
+	// inputs on which a channel disagreed, alone and embedded in separator contexts; for those the partition clauses are
+	// ALSO evaluated against the token stream of the reference lexer (the implementation's own lexer may be the culprit)
+	var derived []string
 	for _, s := range hintInputs(o) {
-		each(s)
+		derived = append(derived, s)
 		for _, suf := range splitHintSuffixes {
-			each(s + suf)
-			each("a;" + s + suf)
+			derived = append(derived, s+suf, "a;"+s+suf)
+		}
+	}
+	for _, s := range derived {
+		each(s)
+	}
+	if len(derived) > 0 {
+		if toks, ok, err := refLex(derived); err == nil {
+			for i, s := range derived {
+				if d := c12CheckRef(s, toks[i], ok[i]); d != "" {
+					res.fail("ref:"+hx(s), s, "SplitRawStatements vs reference lexer", d)
+				}
+			}
 		}
 	}
 	splitInputs(o.tier, &rng{s: o.seed}, each)
@@ -200,3 +213,47 @@ func propC12(o *propOpts) *propResult {
 }
 
 var splitHintSuffixes = []string{";", ";'", ";\"", ";`", ";'''", ";\"\"\"", "; x", ";*/", ";\n"}
+
+// c12CheckRef evaluates C12 on the real splitter against the REFERENCE token stream of s.
+func c12CheckRef(s string, toks []refToken, lexes bool) (detail string) {
+	defer func() {
+		if r := recover(); r != nil {
+			detail = fmt.Sprint("SplitRawStatements panicked: ", r)
+		}
+	}()
+	ps, err := memefish.SplitRawStatements("", s)
+	if (err != nil) == lexes {
+		return fmt.Sprintf("SplitRawStatements error=%v but the reference lexer accepts=%v", err, lexes)
+	}
+	if err != nil {
+		return ""
+	}
+	for _, t := range toks {
+		if t.kind == ";" {
+			for _, p := range ps {
+				if int(p.Pos) < t.end && t.pos < int(p.End) {
+					return fmt.Sprintf("piece %d..%d contains the ';' token at %d", p.Pos, p.End, t.pos)
+				}
+			}
+			continue
+		}
+		in := func(a, b int) int {
+			n := 0
+			for _, p := range ps {
+				if int(p.Pos) <= a && b <= int(p.End) {
+					n++
+				}
+			}
+			return n
+		}
+		for _, c := range t.comments {
+			if in(c[0], c[1]) != 1 {
+				return fmt.Sprintf("comment at %d..%d lies in %d pieces", c[0], c[1], in(c[0], c[1]))
+			}
+		}
+		if t.kind != "<eof>" && in(t.pos, t.end) != 1 {
+			return fmt.Sprintf("token %q at %d..%d (reference lexer) lies in %d pieces: a ';' inside it split the input", s[t.pos:t.end], t.pos, t.end, in(t.pos, t.end))
+		}
+	}
+	return ""
+}
